@@ -2106,12 +2106,16 @@ class C08(SampleCheck):
         import casadi as ca
         import numpy as np
         n = 12 if self.tier == 'quick' else 150
-        for _ in range(n):
-            desc = self.gen({'features': {'qstate': 0.0, 'dae': 0.3, 'p': 0.0, 'pc': 0.0, 'pcp': 0.0, 'v': 0.0, 'vc': 0.0, 'vcp': 0.0},
-                             'horizon': ['num'], 'grids': ['uniform', 'geometric', 'data']})
+        for it_ in range(n):
+            forced = it_ < 3      # dedicated: an algebraic variable under direct collocation with several integration steps, queried in later steps
+            desc = self.gen({'features': {'qstate': 0.0, 'dae': 1.0 if forced else 0.3, 'p': 0.0, 'pc': 0.0, 'pcp': 0.0, 'v': 0.0, 'vc': 0.0, 'vcp': 0.0},
+                             'horizon': ['num'], 'grids': ['uniform', 'geometric', 'data'], **({'methods': [('dc', 'rk')], 'Ms': [2, 3], 'Ns': [2, 3]} if forced else {})})
             try:
                 b = B.build(desc)
                 e = G.poly(self.rng, sample_atoms(desc, 'integrator', for_sampler=True), (1, 3), 2)
+                if forced:
+                    e = ('+', e, ('*', Mo.E.C(G.coef(self.rng)), G.symbols(desc)['z'][0]))
+                    self.count("sampler-algebraic-later-steps")
                 with B.quiet():
                     f = b.ocp.sampler('smp', [Mo.E.to_casadi(e, b.sym_base)])
             except Exception as ex:
@@ -2135,6 +2139,8 @@ class C08(SampleCheck):
             for _k in range(2):
                 tm = self.rng.choice(tg[:-1])
                 times.append(tm + T * Fr(1, 2 ** 20) if tm != t0 else tm)     # never exactly ON an interior grid time: controls jump there
+            if forced:
+                times += [tg[j] + (tg[j + 1] - tg[j]) * Fr(self.rng.randint(1, 7), 8) for j in range(1, len(tg) - 1)]     # inside every step after the first
             times = [t for t in times if t <= t0 + T]
             # a random interior time can coincide with an integrator grid time (T*k/16 with N*M in {2,4,8,16}): at an arbitrary
             # (dynamically infeasible) point the trajectory jumps there and `low` on doubles may fall on either side: step off it
